@@ -1031,7 +1031,8 @@ class ComparisonReporter:
             color_neutral = console.format.neutral
 
         if as_percentage:
-            diff = _safe_divide(contender - baseline, baseline) * 100.0
+            # relative to the magnitude of the baseline: the sign is the one of the absolute difference also for negative baselines
+            diff = _safe_divide(contender - baseline, abs(baseline)) * 100.0
             precision = 2
             suffix = "%"
         else:
